@@ -321,19 +321,38 @@ def check_certified(ctx: Ctx, f):
 # -- O4 ------------------------------------------------------------------------------------------
 
 
+def _blk_of(fn_node, stmt):
+    for n in ast.walk(fn_node):
+        for fld in ("body", "orelse", "finalbody"):
+            b = getattr(n, fld, None)
+            if isinstance(b, list) and any(x is stmt for x in b):
+                return b
+    return []
+
+
 def check_verdicts(ctx: Ctx, f):
     cfg = cfg_of(f.node)
     gv = GuardView(cfg)
     sites = result_sites(f)
     ctx.floor("Result sites in solve_milp", len(sites), 8)
     # main loop and its budget conjunct
-    loops = [n for n in cfg.nodes if n.kind == "test" and n.note == "while" and "max_nodes" in names_in(n.ast)]
-    ctx.require(len(loops) == 1, "branch-and-bound loop with `max_nodes` conjunct not found")
+    loops = [n for n in cfg.nodes if n.kind == "test" and n.note == "while" and any(isinstance(c, ast.Call) and ast.unparse(c.func) == "heappop" for w in own_nodes(f.node) if isinstance(w, ast.While) and w.test is n.ast for c in ast.walk(w))]
+    ctx.require(len(loops) == 1, "branch-and-bound loop (the `while` that pops the open-node heap) not found")
     loop = loops[0]
     conj = loop.ast.values if isinstance(loop.ast, ast.BoolOp) and isinstance(loop.ast.op, ast.And) else [loop.ast]
     natural = [c for c in conj if "max_nodes" not in names_in(c)]
     ctx.require(len(natural) == 1 and isinstance(natural[0], ast.Name), "natural conjunct of the B&B loop (open-node heap) not recognised")
     heap = natural[0].id
+    # the verdicts after the loop read `heap` as "every node was explored": nothing may leave the loop with a popped node
+    # unprocessed unless that node is pushed back first
+    wloop = next(w for w in own_nodes(f.node) if isinstance(w, ast.While) and w.test is loop.ast)
+    for b in [x for x in ast.walk(wloop) if isinstance(x, ast.Break)]:
+        bn = cfg.node_of(b)
+        if bn.loop is not loop:
+            continue
+        blk = _blk_of(f.node, b)
+        pushed_back = any(isinstance(x, ast.Expr) and isinstance(x.value, ast.Call) and ast.unparse(x.value.func) == "heappush" and ast.unparse(x.value.args[0]) == heap for x in blk[: blk.index(b)])
+        ctx.ob("C04-O4", "R2 BUDGET-EXIT", f, "a `break` out of the node loop does not abandon the node that was just popped", pushed_back, f"the popped node is no longer in `{heap}`: if it was the last one, `not {heap}` after the loop reads as an exhausted search and the incumbent is labelled OPTIMAL (or the problem INFEASIBLE)", node=b)
     n_exact_after = 0
     for k, s in enumerate(sites):
         at = gv.guard_atoms(s.node)
@@ -543,6 +562,18 @@ def _v_right_child_keeps_lower(tree):
     M.replace_stmt(g, lambda s: M.src_is(s, "lower_right[frac_var] = ceil(val)"), M.stmts("upper_right[frac_var] = ceil(val)"))
 
 
+def _v_budget_break_after_pop(tree):
+    g = M.find_func(tree, "solve_milp")
+    w = [n for n in ast.walk(g) if isinstance(n, ast.While) and M.src_has(n.test, "nodes_explored < max_nodes")]
+    if not w:
+        raise M.Skip("node loop not found")
+    w[0].test = M.expr("tree")
+    prune = [i for i, s in enumerate(w[0].body) if isinstance(s, ast.If) and M.src_has(s.test, "node_bound >= sign * best_obj - eps")]
+    if not prune:
+        raise M.Skip("bound prune not found")
+    w[0].body[prune[0] + 1 : prune[0] + 1] = M.stmts("if nodes_explored >= max_nodes:\n    break")
+
+
 def _v_sign_test_integers_only(tree):
     g = M.find_func(tree, "_is_feasible")
     M.replace_stmt(g, lambda s: isinstance(s, ast.If) and M.src_has(s.test, "x[j] < -eps"), [])
@@ -593,6 +624,7 @@ VARIANTS = [
     M.Variant("_is_feasible tests the sign of integer variables only (seed C04-E)", ML, _v_sign_test_integers_only, "C04-O9"),
     M.Variant("nodes pruned with slack 1 - eps when all costs are integers (seed C04-F)", ML, _v_integral_cutoff, "C04-O10"),
     M.Variant("right child caps instead of raising the branching variable", ML, _v_right_child_keeps_lower, "C04-O11"),
+    M.Variant("node budget tested after the pop: the last live node is dropped (seed C04-G)", ML, _v_budget_break_after_pop, "C04-O4"),
     M.Variant("twin: reformat", ML, _t_reformat, None),
     M.Variant("twin: rename bound locals", ML, _t_rename, None),
     M.Variant("twin: status conditional written the other way", ML, _t_flag_status, None),
